@@ -39,6 +39,8 @@ type Coin struct {
 
 // Lock returns the number of blocks that must separate the coin's block from
 // the spending block (next - h >= Lock).
+//
+//go:norace
 func (c *Coin) Lock() uint64 {
 	switch {
 	case c.Coinbase:
@@ -52,11 +54,14 @@ func (c *Coin) Lock() uint64 {
 }
 
 // SpendableAt reports whether the block after tip may spend the coin.
+//
+//go:norace
 func (c *Coin) SpendableAt(tip uint64) bool {
 	next := tip + 1
 	return next >= c.Height && next-c.Height >= c.Lock()
 }
 
+//go:norace
 func classify(pk []byte) (cls CoinClass, holder [32]byte, frozen uint64, target []byte, ok bool) {
 	class, pops := txscript.GetScriptInfo(pk)
 	switch class {
@@ -111,6 +116,8 @@ type Ledger struct {
 
 // ComputeLedger replays chain (index = height) for the given set of holder
 // script hashes.
+//
+//go:norace
 func ComputeLedger(chain []*BlockRec, owned map[[32]byte]bool) *Ledger {
 	l := &Ledger{Coins: map[wire.OutPoint]*Coin{}, PaidTo: map[[32]byte]bool{}}
 	games := map[wire.OutPoint]*GameRec{}
@@ -179,6 +186,7 @@ type Obs struct {
 	Utxos    []ObsUtxo
 }
 
+//go:norace
 func (o *Obs) String() string {
 	var sb strings.Builder
 	fmt.Fprintf(&sb, "wallet=%s synced=%d gross=%d bal={%d %d %d %d}\n", o.WalletID, o.SyncedTo, o.Gross,
@@ -194,6 +202,7 @@ func (o *Obs) String() string {
 	return sb.String()
 }
 
+//go:norace
 func sortObs(o *Obs) {
 	sort.Slice(o.AddrBal, func(i, j int) bool { return o.AddrBal[i].Addr < o.AddrBal[j].Addr })
 	sort.Slice(o.Utxos, func(i, j int) bool {
@@ -211,6 +220,8 @@ func sortObs(o *Obs) {
 // ModelObs renders the ledger the way the API would show it. addrOf maps a
 // holder hash to the standard address string; addrs lists every address the
 // wallet is expected to report on (issued addresses).
+//
+//go:norace
 func (l *Ledger) ModelObs(walletID string, addrOf map[[32]byte]string, addrs []string) *Obs {
 	o := &Obs{WalletID: walletID, SyncedTo: l.Tip}
 	per := map[string]*ObsBal{}
